@@ -87,7 +87,7 @@ def gen_member(rng, i):
         p["allowed"] = ORDER[i - len(axes):]
         p["chase_cname"] = p["allowed"] == ["A"] or i % 2 == 0
         if i - len(axes) > 0:
-            p["refuse"] = "servfail" if i % 2 else "silence"
+            p["refuse"] = ["servfail", "silence", "nodata"][i % 3]
     elif i < len(axes) + 10:
         p["limit"] = LIMITS[1 + i - len(axes) - 7]
     elif i < corners:
@@ -101,7 +101,7 @@ def gen_member(rng, i):
         p["edns0"] = rng.random() < 0.6
         if not p["edns0"] and rng.random() < 0.4:
             p["edns0"] = "formerr"        # does not honour EDNS0 the loud way: FORMERR to every query with an OPT record
-        p["refuse"] = rng.choice(["servfail", "silence"])
+        p["refuse"] = rng.choice(["servfail", "silence", "nodata"])
         p["rr_order"] = rng.choice(["keep", "keep", "rotate", "reverse"])      # (resolvers rotate RRsets; the protocol numbers its records)
         p["chase_cname"] = rng.random() < 0.3          # (recursive resolvers chase the CNAME they get for an A question -> NXDOMAIN + record)
         if not member_valid(p):
@@ -141,6 +141,18 @@ def scn(params):
                 mc.connect()
             out["stats"]["with_crowd"] = 1
         opts = ["-r"]
+        if params.get("try_raw"):
+            # default options: the client first tries to reach the server directly (raw UDP mode) - in vain, the path to the
+            # server leads through the relay only - and gives that up after ten seconds
+            opts = []
+            cli_ip = "10.53.1.1"
+
+            def no_direct_path(src, dst, data):
+                if (src[0] == cli_ip and dst[0] in (scen.SERVER_IP, scen.SERVER_IP6)) or (dst[0] == cli_ip and src[0] in (scen.SERVER_IP, scen.SERVER_IP6)):
+                    return []
+                return None
+            k.link_policy = no_direct_path
+            out["stats"]["with_raw_attempt"] = 1
         forced = params.get("forced")
         judged = True
         if forced:
@@ -391,9 +403,17 @@ def run(ctx):
                 forced = ["-T", rng.choice(ORDER), "-O", rng.choice(["base32", "base64", "base64u", "base128"])]
         plist.append({"idx": i, "seed": ctx.seed * 100000 + i, "rseed": rng.getrandbits(32), "member": member, "forced": forced,
                       "lazy0": rng.random() < 0.15, "pred": rng.random() < 0.3})
+        if i % 6 == 4 and not (forced and "-T" not in forced and False):
+            plist[-1]["try_raw"] = True
         if i in (0, 4, 8, 20) or rng.random() < 0.12:
             plist[-1]["crowd"] = rng.randint(10, 14)
             plist[-1]["pred"] = False
+    # paths that carry very little: one host-name record type only, classic 512-byte answers (larger ones vanish), EDNS0 unknown
+    for j, (allowed, refuse, try_raw) in enumerate([(["CNAME", "A"], "silence", True), (["A"], "silence", True), (["CNAME", "A"], "nodata", True),
+                                                    (["A"], "servfail", False), (["CNAME", "A"], "nodata", False), (["TXT", "SRV", "MX", "CNAME", "A"], "nodata", True)]):
+        member = {"qcfg": list(CLEAN), "acfg": list(CLEAN), "allowed": allowed, "limit": 512, "edns0": False, "refuse": refuse, "chase_cname": False}
+        plist.append({"idx": n + len(plist), "seed": ctx.seed * 100000 + 70000 + j, "rseed": rng.getrandbits(32), "member": member,
+                      "forced": None, "lazy0": False, "pred": False, "try_raw": try_raw})
     # the downstream codec forced, on the paths each codec is there for, with the fragment size given (nothing is probed)
     for j, (codec, acfg) in enumerate([("base64u", ("keep", "clean", "plus")), ("Base64u", ("keep", "strip", "plus")), ("base64", ("keep", "clean", "under")),
                                        ("base128", ("keep", "clean", "plus")), ("base32", ("random", "strip", "plus")), ("BASE64U", ("keep", "reject", "plus"))]):
